@@ -313,6 +313,14 @@ pub fn gen(seed: u64, run: u64, tier: &str) -> Vec<Step> {
         prefill: 0,
         keep_previous: false,
     };
+    // corner runs: every trailing part empty / every part at its maximum
+    let base = match run % 16 {
+        15 => U2fSpec { kh_len: 0, cert_len: 0, sig_len: 0, ..base },
+        14 => U2fSpec { kh_len: 255, cert_len: 1024, sig_len: 72, pk_len: 65, ..base },
+        13 => U2fSpec { kh_len: 0, cert_len: 0, pk_len: 0, ..base },
+        12 => U2fSpec { cert_len: 0, sig_len: 0, ..base },
+        _ => base,
+    };
     let (_, model) = build(&base);
     let total = model.len();
     // part boundaries of the model
